@@ -842,9 +842,10 @@ func runC20(a *Args) error {
 	prelude := "From NV Require Import Base C20_Semver C20_Model.\nOpen Scope string_scope.\n"
 	w := NewCaseWriter(a, "C20", prelude, "case", "run")
 	w.ShardSize = 1200
-	w.Rule = "histories of 1..6 Install/Uninstall operations on the real plugin.CLIManager (NewCLIManager(dir.NewSysFS(root))) in a temporary plugin root (empty or pre-populated, also with broken plugins: no binary, not executable, malformed / misnamed / failing metadata, invalid version), over stub plugins (foo, bar and odd names: '.', '..', 'a\\b', 'a.b', ...) whose versions come from the semver-ordered set 1.0.0-alpha < 1.0.0-alpha.1 < 1.0.0-alpha.beta < 1.0.0-beta < 1.0.0-beta.2 < 1.0.0-beta.11 < 1.0.0-rc.1 < 1.0.0 < 1.0.1 < 1.1.0 < 2.0.0 < 9.0.0 < 10.0.0, from versions with build metadata and from invalid strings, x overwrite flag x 44 source shapes {empty path, missing path, non-regular file, single executable / non-executable / misnamed file, directory with executable or non-executable candidate, extra files sorting before and after with modes 0600..0777, sub-directories (before, after, holding executables, named like the directory), symbolic links, two / three candidates in every executable pattern (also answering with each other's name), no candidate, invalid / misnamed / failing metadata}; after every operation the returned (existing, new, error class), the whole tree of the root (names, permission bits, contents), List and Get+GetMetadata of every directory are observed. Families: shapes = every source shape on a fresh root, over a lower, a higher and the same version, with and without overwrite; pairs = every ordered pair of the version set as install-then-reinstall (quick: all valid pairs without overwrite, the rest sampled; thorough: all x overwrite); broken / names = broken existing plugins and invalid plugin names; random = random histories with random extra directory entries. Plus ComparePluginVersion (through verifbridge) on every ordered pair of 40 valid fixed versions, invalid strings, and generated version strings (numeric / alphanumeric / hyphen identifiers, leading zeros, 64-bit overflow, build metadata; 5/6 valid). Family concurrent (a re-executed child process; crash or timeout = violation): ONE CLIManager and plugin root shared by 8 (thorough 12) goroutines, each owning one plugin name with its own versions and contents: first a burst of 1500 (6000) rounds of Get / Uninstall / Install-from-a-missing-path / Get(stable) / List that execute no plugin, then 40 (120) histories of 6 Install/Uninstall operations each with List + Get+GetMetadata after every operation, under a context logger that yields on every call and sleeps 1.5 ms on every fourth, while 2 goroutines keep asking Get+GetMetadata+List for a plugin nobody touches; every per-name history (view restricted to that name) is an ordinary case judged by the model on an empty initial root. non-trivial = a history in which an install meets an installed plugin of the same name or uses a directory source with other entries, or a comparison of two valid different versions; distinct = distinct (table, initial root, operations) / (v, w)"
+	w.Rule = "histories of 1..6 Install/Uninstall operations on the real plugin.CLIManager (NewCLIManager(dir.NewSysFS(root))) in a temporary plugin root (empty or pre-populated, also with broken plugins: no binary, not executable, malformed / misnamed / failing metadata, invalid version), over stub plugins (foo, bar and odd names: '.', '..', 'a\\b', 'a.b', ...) whose versions come from the semver-ordered set 1.0.0-alpha < 1.0.0-alpha.1 < 1.0.0-alpha.beta < 1.0.0-beta < 1.0.0-beta.2 < 1.0.0-beta.11 < 1.0.0-rc.1 < 1.0.0 < 1.0.1 < 1.1.0 < 2.0.0 < 9.0.0 < 10.0.0, from versions with build metadata and from invalid strings, x overwrite flag x 44 source shapes {empty path, missing path, non-regular file, single executable / non-executable / misnamed file, directory with executable or non-executable candidate, extra files sorting before and after with modes 0600..0777, sub-directories (before, after, holding executables, named like the directory), symbolic links, two / three candidates in every executable pattern (also answering with each other's name), no candidate, invalid / misnamed / failing metadata}; after every operation the returned (existing, new, error class), the whole tree of the root (names, permission bits, contents), List and Get+GetMetadata of every directory are observed. Families: shapes = every source shape on a fresh root, over a lower, a higher and the same version, with and without overwrite; pairs = every ordered pair of the version set as install-then-reinstall (quick: all valid pairs without overwrite, the rest sampled; thorough: all x overwrite); broken / names = broken existing plugins and invalid plugin names; random = random histories with random extra directory entries. Family nearmiss (seed C20-5): every string of 1.1 | 1 | 2.0 | v1.0.0 | 1.0.0.0 | 01.0.0 | 1.0.0- | 1.0.0+ | 1.0 | ' 1.0.0' | '1.0.0 ' | 1.0.0-01 | 1.0.0-a..b | '' as the NEW version (after 1.0.0 / 1.1.0 / 3.0.0, followed by a proper upgrade) and as the INSTALLED version (got in by a fresh installation or present before the manager exists; then installs of 1.0.0 / 3.0.0 / 0.0.1 / itself without overwrite, then with overwrite) of two- to four-step histories over the three source shapes file / directory with extras / directory with a non-executable candidate; the outcome the property fixes for every step (refused with the version error and an untouched root, or accepted over the untouched plugin) is written into the step and judged on the Go side as well as by the Coq oracle, so that a failing input is reported even when Generated.v cannot be produced. The table of every history is printed as what each file content PRINTS (established by running it directly and decoding with encoding/json); the model of plugin.validate decides what is valid metadata. Plus ComparePluginVersion (through verifbridge) on every ordered pair of 40 valid fixed versions, invalid strings, and generated version strings (numeric / alphanumeric / hyphen identifiers, leading zeros, 64-bit overflow, build metadata; 5/6 valid). Family concurrent (a re-executed child process; crash or timeout = violation): ONE CLIManager and plugin root shared by 8 (thorough 12) goroutines, each owning one plugin name with its own versions and contents: first a burst of 1500 (6000) rounds of Get / Uninstall / Install-from-a-missing-path / Get(stable) / List that execute no plugin, then 40 (120) histories of 6 Install/Uninstall operations each with List + Get+GetMetadata after every operation, under a context logger that yields on every call and sleeps 1.5 ms on every fourth, while 2 goroutines keep asking Get+GetMetadata+List for a plugin nobody touches; every per-name history (view restricted to that name) is an ordinary case judged by the model on an empty initial root. non-trivial = a history in which an install meets an installed plugin of the same name or uses a directory source with other entries, or a comparison of two valid different versions; distinct = distinct (table, initial root, operations) / (v, w)"
 	w.Assumptions = []string{
-		"what a plugin file answers to get-plugin-metadata is a function of its content (stub scripts print what is written in them; checked by running every stub content directly)",
+		"what a plugin file prints for get-plugin-metadata is a function of its content (stub scripts print what is written in them; every content is run directly, its output decoded with encoding/json into the six metadata fields, and that is the table given to the model, which applies plugin.validate itself); plugin.ContractVersion of the framework is 1.0 (checked)",
+		"near-miss family: the expected outcome of every step is the one the property text fixes for strings that are not SemVer 2.0.0 versions; it is checked on the Go side (implementation-violation) and independently by the Coq oracle",
 		"the source of an installation lies outside the plugin root and is not modified concurrently",
 		"the harness runs as a user for whom the files are readable; a file is executable by that user iff its owner-execute bit is set (modes are generated accordingly)",
 		"error classes of Install/Uninstall are recognised by errors.As / errors.Is and by the fixed message prefixes of manager.go",
